@@ -45,6 +45,9 @@ def norm(x):
     if isinstance(x, str):
         return ('str', x)
     if isinstance(x, (list, tuple)):
+        if all(isinstance(v, str) for v in x):
+            # string chunks are plain lists; the container type is C14's business, not a value difference
+            return ('strs', list(x))
         return ('list', [norm(v) for v in x])
     if x is None:
         return ('none',)
@@ -56,6 +59,12 @@ def concat_norm(parts, empty_like=None):
     parts = [p for p in parts]
     if not parts:
         return None
+
+    def _n(p):
+        return len(p[1]) if p[0] == 'strs' else (p[1] if p[0] == 'rawts' else (p[2] if p[0] == 'arr' else 1))
+    # empty chunks may be of another container/dtype than full ones; that is C14's business
+    nonempty = [p for p in parts if _n(p) > 0]
+    parts = nonempty or parts[:1]
     kinds = set(p[0] for p in parts)
     if kinds == {'strs'}:
         return ('strs', [v for p in parts for v in p[1]])
